@@ -4,6 +4,7 @@ import (
 	"io"
 	"strconv"
 	"strings"
+	"unicode/utf8"
 
 	"github.com/alecthomas/participle/v2/lexer"
 )
@@ -51,13 +52,22 @@ func Unquote(types ...string) Option {
 func unquote(s string) (string, error) {
 	quote := s[0]
 	s = s[1 : len(s)-1]
+	if quote == '`' {
+		// Raw strings have no escape sequences.
+		return s, nil
+	}
 	out := ""
 	for s != "" {
-		value, _, tail, err := strconv.UnquoteChar(s, quote)
+		value, multibyte, tail, err := strconv.UnquoteChar(s, quote)
 		if err != nil {
 			return "", err
 		}
 		s = tail
+		if !multibyte && value >= utf8.RuneSelf {
+			// A \xNN or octal escape denotes a single byte, not the rune with that number.
+			out += string([]byte{byte(value)})
+			continue
+		}
 		out += string(value)
 	}
 	return out, nil
